@@ -43,11 +43,13 @@ class MinifyTimeout(BaseException):
 
 MINIFY_SECONDS = float(os.environ.get('VERIF_MINIFY_SECONDS', '60'))
 _timeouts = [0]
+TIMEOUT_TRACES = []
 
 
 class time_limit(object):
-    """Wall-clock guard around a call into the system under test (main thread only). After three expiries in one process the
-    run is aborted as a harness error: a change that makes the minifier loop forever must not turn a check into a silent hang."""
+    """Wall-clock guard around a call into the system under test (main thread only). After three expiries in one process every
+    later call is inconclusive at once: a change that makes the minifier loop forever must not turn a check into a silent hang,
+    and a time limit is never a verdict."""
 
     def __init__(self, seconds=None):
         self.seconds = seconds or MINIFY_SECONDS
@@ -55,11 +57,19 @@ class time_limit(object):
 
     def _expired(self, signum, frame):
         _timeouts[0] += 1
+        # where it was: innermost frames, for the evidence notes (a hang must be explainable afterwards)
+        try:
+            import traceback
+            TIMEOUT_TRACES.append(''.join(traceback.format_stack(frame, limit=6))[-1500:])
+        except Exception:
+            pass
         raise MinifyTimeout('no result after %.0f s' % self.seconds)
 
     def __enter__(self):
         if _timeouts[0] >= 3:
-            raise RuntimeError('python_minifier did not return within %.0f s on three inputs in this process: giving up (harness error)' % self.seconds)
+            # three expiries in this process: stop waiting a minute per case. Every later call is inconclusive at once (MinifyTimeout is
+            # never a verdict); the shard reports the give-up in its notes.
+            raise MinifyTimeout('gave up after three expiries of %.0f s in this process' % self.seconds)
         if threading.current_thread() is threading.main_thread():
             try:
                 self.old = signal.signal(signal.SIGALRM, self._expired)
